@@ -40,7 +40,7 @@ pub const PROPS: &[PropSpec] = &[
         rule: "non-trivial: >=1 effect ran while the reducer thread was inside a later pipeline, or stop() was invoked with effects outstanding" },
     PropSpec { id: "C12", families: &[("mw", 10)], borrowed: &[("C01", "mw"), ("C03", "mw"), ("C07", "mw")], quick_runs: 96_000,
         rule: "non-trivial: some hook returned a verdict other than Continue" },
-    PropSpec { id: "C13", families: &[("api", 10)], borrowed: &[], quick_runs: 96_000,
+    PropSpec { id: "C13", families: &[("api", 6), ("eff", 2), ("sub", 1), ("stop", 1)], borrowed: &[], quick_runs: 96_000,
         rule: "non-trivial: >=2 client threads had public API calls overlapping in time, one of them a shutdown, subscription or iterator operation" },
     PropSpec { id: "C14", families: &[("sub", 10)], borrowed: &[], quick_runs: 96_000,
         rule: "non-trivial: an iterator yielded >=1 item and its consumer overlapped a producer or stop()" },
